@@ -320,7 +320,15 @@ def op (st : St) (toks : List String) : St × String :=
     let liveIds := st.live.map (·.1)
     match unreachable st.mirror liveIds with
     | none => (st, "UNSUPPORTED reach fuel")
-    | some [] => (st, s!"ok reach live={liveIds.length} all=1 small={flag (!st.over)} complete={flag (!st.over && !lowEf st)}")
+    | some [] =>
+      -- the invariant behind the partial theorems: in the complete regime (entry never
+      -- soft-deleted, never more than 2M+1 vertices, efConstruction never below the size)
+      -- layer 0 of the EXPORTED graph is the complete digraph on the live vertices
+      let regime := !st.over && !lowEf st && !st.entryDead
+      if regime && !complete0B st.mirror then
+        (st, s!"SPECFAIL small-complete layer 0 of the exported graph is not complete on the live vertices (live={liveIds.length})")
+      else
+        (st, s!"ok reach live={liveIds.length} all=1 small={flag (!st.over)} complete={flag regime}")
     | some (u :: us) =>
       let agree := sameGraph st.model st.mirror
       (st, knownOr st agree s!"reach unreachable={us.length + 1} first={u} live={liveIds.length} entry={st.mirror.entry}")
